@@ -9,15 +9,18 @@ from encode import encode
 
 ID = 'C06'
 DOMAIN = 'gin/serialize'
-PROPS_FILES = ['Gin/Props/C06.lean', 'Gin/Props/C06b.lean']
-ANCHOR_FILES = ['config.py', 'config_parser.py']
+PROPS_FILES = ['Gin/Props/C06.lean', 'Gin/Props/C06b.lean', 'Gin/Props/C06c.lean']
+ANCHOR_FILES = ['config.py', 'config_parser.py', 'selector_map.py']
 RULE = ('3-5 registered probes with case-colliding and suffix-sharing names (incl. a class with a registered method), 3-12 '
         'bindings reached by programmatic binding and by parsing (nested values, long strings and bytes that pprint '
         'splits, references, macros with case-colliding names, scoped names with case-colliding scopes, values without '
-        'literal form: objects, sets, inf, complex, unknown-reference placeholders - also as macro values), applied in '
+        'literal form: objects, sets, inf, complex, unknown-reference placeholders - also as macro values), 0-4 import '
+        'statements of standard-library modules in every form and alias shape, in a third of the cases one probe registered '
+        'only after the bindings and after a first config_str() call, applied in '
         'two random orders, serialised with (max_line_length, continuation_indent) drawn from {(80,4),(40,4),(20,2),'
         '(10,0),(5,4)...}; the text is compared structurally with the mirror and the real code is used as its own '
-        'oracle: same text for both orders, clear + parse restores every representable binding (value and type), second '
+        'oracle: same text for both orders, clear + parse restores every representable binding (value and type) and the '
+        'recorded imports, second '
         'serialisation identical, wrap rule per binding, markdown keeps binding lines. non-trivial = at least 2 sections '
         'and a value that wraps or an unrepresentable value; distinct = canonical case')
 TRUSTED_BASE = ['Lean 4.33 kernel', 'axioms ⊆ {propext, Classical.choice, Quot.sound}', 'JSON glue (Gin/Drv)',
@@ -72,6 +75,13 @@ def gen_case(rng):
     regs_b = regs
   scopes = ['', 'a', 'A', 'a/b', 'a/B', 'b']
   binds = []
+  # a configurable registered only after the bindings were made (and after config_str() was called once):
+  # the names the second config_str() prints must be minimal for the registry as it is then
+  late = rng.choice(regs) if rng.random() < 0.35 else None
+  if late is not None:
+    regs_b = [r for r in regs_b if r is not late]
+    regs = [r for r in regs if r is not late]
+    ops = [o for o in ops if o is not late]
   known = [r['_selector'] for r in regs]
   for _ in range(rng.randint(3, 12)):
     r = rng.random()
@@ -108,8 +118,47 @@ def gen_case(rng):
   order2 = [b for b in order2 if last[(b['scope'], b['sel'], b['arg'])] is b]
   order1 = [b for b in binds if last[(b['scope'], b['sel'], b['arg'])] is b]
   width = rng.choice(WIDTHS)
-  return {'dom': 'gin', 'ops': ops + order1 + [{'op': 'cfgdoc'}], '_order2': order2, '_width': list(width),
-          '_nregs': len(ops)}
+  imports = rng.sample(IMPORT_LINES, rng.randint(0, 4)) if rng.random() < 0.5 else []
+  lates = [late] if late is not None else []
+  return {'dom': 'gin', 'ops': ops + order1 + lates + [{'op': 'cfgdoc'}], '_order2': order2, '_width': list(width),
+          '_regops': ops + lates, '_imports': imports, '_probe_at': len(ops + order1) if lates else None}
+
+
+# import statements of real (standard library) modules under static registration: every form, aliases that
+# repeat the last component, the first component, or neither
+IMPORT_LINES = ['import os', 'import os.path', 'import os.path as path', 'import os.path as osp', 'from os import path',
+                'from os import path as path', 'from os import path as p2', 'import json as json', 'import json',
+                'import collections.abc as abc', 'import collections.abc as collections', 'from collections import abc',
+                'import xml.dom.minidom as dom', 'from xml.dom import minidom as dom2', 'import xml.dom']
+
+
+def _recorded_imports(gin):
+  return sorted([s.module, bool(s.is_from), s.alias or ''] for s in gin.config._IMPORTS)  # pylint: disable=protected-access
+
+
+def _bound(st):
+  module, is_from, alias = st
+  return alias or (module.split('.')[-1] if is_from else module.split('.')[0])
+
+
+def _imports_restored(before, after):
+  """The import manager's contract: one statement per module (the from-form preferred), in its recorded form
+  and alias unless the names the kept statements bind collide, in which case one of them is re-aliased."""
+  if sorted({s[0] for s in before}) != sorted(s[0] for s in after):
+    return 'not one statement per recorded module'
+  kept = {}
+  for st in sorted(before, key=lambda s: (s[0], not s[1], s[2])):
+    kept.setdefault(st[0], st)
+  names = [_bound(st) for st in kept.values()]
+  if len({_bound(s) for s in after}) != len(after):
+    return 'two statements bind the same name'
+  for st in after:
+    want = kept[st[0]]
+    if st[1] != want[1]:
+      return f'{st[0]}: from-form changed'
+    if st[2] != want[2] and names.count(_bound(want)) == 1:
+      return f'{st[0]}: alias {want[2]!r} became {st[2]!r} without a name collision'
+  return None
 
 
 def G_repr(v):
@@ -185,9 +234,17 @@ def run_impl(case):
   Opaque._all.clear()  # pylint: disable=protected-access
   w, ind = case['_width']
   s = gindom.Session()
-  out = [s.run_op(op) for op in case['ops'][:-1]]
+  out = []
+  for i, op in enumerate(case['ops'][:-1]):
+    if i == case.get('_probe_at'):
+      s.gin.config_str()   # an observation: it must not influence what is printed later
+    out.append(s.run_op(op))
   gin = s.gin
   res = {'out': out}
+  imports = case.get('_imports') or []
+  if imports:
+    gin.parse_config('\n'.join(imports))
+  res['imports'] = _recorded_imports(gin)
   try:
     text = gin.config_str(max_line_length=w, continuation_indent=ind)
   except Exception as e:  # pylint: disable=broad-except
@@ -211,8 +268,10 @@ def run_impl(case):
       [l for l in text.splitlines() if not l.startswith('#')]
   # same store built in another order, fresh interpreter
   s2 = gindom.Session()
-  for op in case['ops'][:case['_nregs']] + case['_order2']:
+  for op in (case['_regops'] if '_regops' in case else case['ops'][:case['_nregs']]) + case['_order2']:
     s2.run_op(op)
+  if imports:
+    s2.gin.parse_config('\n'.join(reversed(imports)))
   res['text_other_order'] = s2.gin.config_str(max_line_length=w, continuation_indent=ind)
   # round trip: clear, parse, serialise again, compare queries
   before = {}
@@ -223,6 +282,7 @@ def run_impl(case):
     gin.clear_config()
     gin.parse_config(text)
     res['reparse'] = 'ok'
+    res['imports_again'] = _recorded_imports(gin)
     res['text_again'] = gin.config_str(max_line_length=w, continuation_indent=ind)
     lost = []
     after = gin.config._CONFIG  # pylint: disable=protected-access
@@ -262,6 +322,9 @@ def oracle(case, impl):
     return f'the config string does not parse: {impl["reparse"]}'
   if impl['text_other_order'] != impl['text']:
     return f'the text depends on the order of the bindings:\n{impl["text"]!r}\nvs\n{impl["text_other_order"]!r}'
+  why = _imports_restored(impl.get('imports') or [], impl.get('imports_again') or [])
+  if why:
+    return f'recorded imports {impl.get("imports")} not restored by parsing the config string ({why}): {impl.get("imports_again")}'
   if impl['lost']:
     return f'bindings not restored by parsing the config string: {impl["lost"][:3]}'
   if impl['text_again'] != impl['text']:
